@@ -356,10 +356,32 @@ class SuitCommand(SuitUnion):
     _metadata = Metadata(children=[SuitCondition, SuitDirective])
 
 
+class SuitRawComponentIdentifierPart(SuitBstr):
+    """Representation of a component identifier part which can be shown only as raw bytes."""
+
+    def to_obj(self) -> dict:
+        """Dump SUIT representation to object."""
+        return {"raw": super().to_obj()}
+
+
 class SuitComponentIdentifierPart(SuitUnion):
     """Abstract element to define possible sub-elements."""
 
-    _metadata = Metadata(children=[SuitUUID, SuitBchar, cbstr(SuitTstr), cbstr(SuitInt), SuitBstr])
+    _metadata = Metadata(children=[SuitUUID, SuitBchar, cbstr(SuitTstr), cbstr(SuitInt), SuitRawComponentIdentifierPart])
+
+    @classmethod
+    def from_cbor(cls, cbstr: bytes) -> SuitUnion:
+        """Restore SUIT representation from passed CBOR."""
+        for child in cls._metadata.children:
+            try:
+                part = cls(child.from_cbor(cbstr))
+                # Use the alternative only if the object it is shown as describes exactly the same bytes,
+                # otherwise fall back to the next one (in the end: raw bytes)
+                if cls.from_obj(part.to_obj()).to_cbor() == cls.serialize_cbor(cbstr):
+                    return part
+            except (ValueError, AttributeError):
+                pass
+        raise ValueError("Not possible to deserialize data")
 
 
 class SuitComponentIdentifier(SuitList):
